@@ -480,8 +480,9 @@ class HttpParser:
             self._is_chunked_encoded = True
 
     def _get_body_or_chunks(self) -> Optional[bytes]:
+        # NOTE: An empty chunked body still needs its last-chunk
         return ChunkParser.to_chunks(self.body) \
-            if self.body and self._is_chunked_encoded else \
+            if self.body is not None and self._is_chunked_encoded else \
             self.body
 
     def _set_line_attributes(self) -> None:
